@@ -15,7 +15,7 @@ vars == <<tid, i, o, n, lineO, prevO, ren, verdict>>
 T == Traces[tid]
 Src == T.src
 Out == T.out
-Keep == {T.keep[k] : k \in 1..Len(T.keep)}
+InKeep(x) == Listed(x, T.keepFile)
 Reserved == CoreReserved \cup {T.builtins[k] : k \in 1..Len(T.builtins)}
 NlIn(s, a, e) == Cardinality({j \in a..(e-1) : s[j] = 10})
 \* ---- header (C19): first <= 2 comments before any code ----
@@ -76,16 +76,18 @@ Step ==
                LET va == StrValue(Src, i, ti.e) vb == StrValue(Out, o, to.e) IN ~(vb.ok /\ va.v = vb.v)
             THEN Stop("strval")
        ELSE IF T.focus = "C01" /\ ti.k \in {"name", "label"} THEN
-            \* "identifiers differ at most by the renaming": one input identifier, one output identifier
+            \* "identifiers differ at most by the renaming": a renaming maps one input identifier to one output
+            \* identifier and never merges two (a map that merges two variables changes the program)
             LET x == NameOf(Src, i, ti.e, ti.k) y == NameOf(Out, o, to.e, to.k) IN
               IF \E p \in ren : p[1] = x /\ p[2] # y THEN Stop("rename-not-a-function")
+              ELSE IF \E p \in ren : p[2] = y /\ p[1] # x THEN Stop("rename-merges")
               ELSE ren' = ren \cup {<<x, y>>} /\ Advance(ti, to) /\ UNCHANGED <<tid, verdict>>
        ELSE IF T.focus = "C02" /\ ti.k \in {"name", "label"} THEN
             LET x == NameOf(Src, i, ti.e, ti.k) y == NameOf(Out, o, to.e, to.k) IN
               IF \E p \in ren : p[1] = x /\ p[2] # y THEN Stop("rename-consistent")
               ELSE IF \E p \in ren : p[2] = y /\ p[1] # x THEN Stop("rename-injective")
-              ELSE IF (T.keepAll \/ x \in Reserved \/ x \in Keep) /\ y # x THEN Stop("rename-kept")
-              ELSE IF y # x /\ (y \in Reserved \/ y \in Keep \/ ~IsIdent(y)) THEN Stop("rename-generated")
+              ELSE IF (T.keepAll \/ x \in Reserved \/ InKeep(x)) /\ y # x THEN Stop("rename-kept")
+              ELSE IF y # x /\ (y \in Reserved \/ InKeep(y) \/ ~IsIdent(y)) THEN Stop("rename-generated")
               ELSE ren' = ren \cup {<<x, y>>} /\ Advance(ti, to) /\ UNCHANGED <<tid, verdict>>
        ELSE Advance(ti, to) /\ UNCHANGED <<tid, ren, verdict>>
 Spec == Init /\ [][Step]_vars
